@@ -78,7 +78,9 @@ func main() {
 		stakes[0] = 20000 // one dominant member
 	}
 	for i := 0; i < nv; i++ {
-		g.Validators = append(g.Validators, sim.StdValidator(i, stakes[i%len(stakes)]))
+		v := sim.StdValidator(i, stakes[i%len(stakes)])
+		v.Compound = false // rewards go to the output account: the committee (and its voting power) is the same at every root height
+		g.Validators = append(g.Validators, v)
 		g.Accounts = append(g.Accounts, &fsm.Account{Address: sim.BLSKey(i).Addr, Amount: 1 << 40})
 	}
 	ch, err := sim.NewChain(g, 1, nil)
@@ -95,7 +97,10 @@ func main() {
 		}
 		p, perr := n.Propose(txs)
 		if perr != nil {
-			panic(perr)
+			// the node accepted a certificate it cannot continue from
+			sim.Direct(*outDir, map[string]any{"finding": "chain-cannot-continue-after-accepted-certificate", "kind": "after the last commit no further block can be produced",
+				"height": n.C.FSM.Height(), "error": perr.Error()})
+			break
 		}
 		goodView := n.CommitView()
 		vs, verr := n.Committee(goodView.RootHeight)
@@ -116,7 +121,17 @@ func main() {
 		}
 		cmLit := fmt.Sprintf("(mkCommittee %s %d %d)", sim.CoqNList(powers), vs.TotalPower, vs.MinimumMaj23)
 		maxBlock := n.C.LoadMaxBlockSize()
-		cfgLit := fmt.Sprintf("(mkCfg %d %d %d %d)", n.C.Config.NetworkID, n.C.Config.ChainId, n.C.FSM.Height(), maxBlock)
+		lastRoot := uint64(0)
+		if cd, e := n.C.LoadCommitteeData(); e == nil && cd != nil {
+			lastRoot = cd.LastRootHeightUpdated
+		}
+		// ... and not older than the root height of the previous block's certificate (which this block's begin-block records)
+		if hh := n.C.FSM.Height(); hh > 1 {
+			if last, e := n.C.FSM.LoadCertificateHashesOnly(hh - 1); e == nil && last != nil && last.Header != nil && last.Header.RootHeight > lastRoot {
+				lastRoot = last.Header.RootHeight
+			}
+		}
+		cfgLit := fmt.Sprintf("(mkCfg %d %d %d %d %d)", n.C.Config.NetworkID, n.C.Config.ChainId, n.C.FSM.Height(), maxBlock, lastRoot)
 		committedThisHeight := false
 		for v := 0; v <= *perHeight && !committedThisHeight; v++ {
 			last := v == *perHeight
@@ -134,7 +149,25 @@ func main() {
 			secondHeader := false
 			lastCertPhase := false
 			if !last {
-				switch r.Intn(24) {
+				switch r.Intn(26) {
+				case 24: // a consistent, fully signed certificate under a root height OLDER than the one the node's state last recorded
+					if lastRoot > 0 {
+						rh := lastRoot - 1 // the boundary, half of the time
+						if r.Bool() {
+							rh = lastRoot - 1 - uint64(r.Intn(int(lastRoot)))
+						}
+						if sameCommittee(n, rh, vs) {
+							present.view.RootHeight = rh
+							signed = present
+							kind = "older-root-consistent"
+						}
+					}
+				case 25: // ... and under the oldest root height the state still vouches for (accepted: the bound is not over-tight)
+					if lastRoot > 0 && lastRoot <= good.view.RootHeight && sameCommittee(n, lastRoot, vs) {
+						present.view.RootHeight = lastRoot
+						signed = present
+						kind = "oldest-vouched-root-consistent"
+					}
 				case 22, 23:
 					// the block's header embeds, as the certificate of the previous block, a genuine +2/3 certificate of the same block
 					// and results in ANOTHER phase (the lock or election votes every honest member cast); the block is otherwise the
@@ -378,6 +411,18 @@ func main() {
 			if derr == nil != committed {
 				sim.Direct(*outDir, map[string]any{"finding": "handlepeerblock-result-vs-version", "kind": "return value and version disagree", "mutation": kind})
 			}
+			// a refused certificate is presented again (a peer re-sends it; the next block's header embeds it): a refusal must not be
+			// remembered as an acceptance by any verification cache
+			if !committed && r.Chance(60) {
+				b1 := n.Store.Version()
+				_ = n.Deliver(sim.CloneQC(qc), false)
+				st.ByKind["refused-presented-again"]++
+				if n.Store.Version() != b1 {
+					sim.Direct(*outDir, map[string]any{"finding": "refused-certificate-committed-on-second-presentation", "kind": "a certificate refused on its first presentation caused a commit when presented again",
+						"mutation": kind, "height": goodView.Height})
+					committed = true
+				}
+			}
 			if lastCertPhase && committed {
 				sim.Direct(*outDir, map[string]any{"finding": "last-certificate-of-another-phase-accepted", "kind": "a block whose header embeds a non-commit-phase certificate as the previous block's certificate was committed (the embedded certificate replaces the stored finality proof)",
 					"height": goodView.Height})
@@ -441,4 +486,21 @@ func main() {
 	historicalCommittee(r.Fork(), *outDir)
 	cw.Close(st)
 	fmt.Printf("c02: %d certificates (%d committed, %d rejected) over %d heights, mutations %v\n", st.Cases, st.Committed, st.Rejected, st.Heights, st.ByKind)
+}
+
+// sameCommittee: the committee in force at rootHeight is the given one (same members in the same order with the same power), so a
+// certificate signed by `vs` verifies under that root height too
+func sameCommittee(n *sim.CNode, rootHeight uint64, vs lib.ValidatorSet) bool {
+	n.Enter()
+	o, err := n.Committee(rootHeight)
+	if err != nil || o.ValidatorSet == nil || vs.ValidatorSet == nil || len(o.ValidatorSet.ValidatorSet) != len(vs.ValidatorSet.ValidatorSet) {
+		return false
+	}
+	for i, m := range o.ValidatorSet.ValidatorSet {
+		w := vs.ValidatorSet.ValidatorSet[i]
+		if string(m.PublicKey) != string(w.PublicKey) || m.VotingPower != w.VotingPower {
+			return false
+		}
+	}
+	return true
 }
